@@ -2,7 +2,9 @@ N = {"quick": 200, "thorough": 5000}
 EXHAUSTIVE = {"quick": False, "thorough": True}
 RULE = ("each case builds the real ExecutionManager (ExecutionManager::new + run, spawned on a current-thread tokio runtime with a paused clock) around a scripted "
         "ExecutionClient, 1-3 instruments, 0-3 configured assets (`init T n [m]`; 0 = the asset table is empty), request timeout T in {0,1,2,3,5,8} ticks (1 tick = 10 ms virtual): 1-4 rounds of batches of 1-24 (thorough 1-40) open/cancel "
-        "requests over 4 client order ids x 2 strategies (collisions intended), per-request client behaviour = reply ok / ok-fully-filled / rejected / rejected-naming-an-instrument / "
+        "requests over 4 client order ids x 2 strategies (collisions intended); opens vary side / price / quantity x Limit|Market (30 % Market) x time in force (GTC, GTC post-only, "
+        "GoodUntilEndOfDay, FillOrKill, ImmediateOrCancel), cancels carry `id` None or Some (40 %); per-request client behaviour = reply ok with filled quantity nothing / everything (fully filled) / "
+        "HALF of the quantity (partial fill) / quantity + 1, carrying a varying order id (5 values) and exchange time (7 values) / rejected / rejected-naming-an-instrument / "
         "Connectivity(Timeout | ExchangeOffline | Socket) AS THE CLIENT'S ANSWER / AssetInvalid(asset) / BalanceInsufficient(asset) / RateLimit / OrderAlreadyCancelled / "
         "OrderAlreadyFullyFilled - the scripted client returns the real UnindexedOrderError values, 50 % ok, 10 % connectivity, 10 % asset-carrying - "
         "after a delay in {0, <T, =T, T+1, >T, never}; time then passes by `adv dt` (sleep: timers fire one at a time = prompt polls) or `jump dt` (tokio::time::advance: the clock "
@@ -10,9 +12,23 @@ RULE = ("each case builds the real ExecutionManager (ExecutionManager::new + run
         "and with probability 0/0/8/30% per case-class a client answer does not echo the request (other exchange, unknown or other instrument, other cid/strategy/fields, unknown "
         "instrument or unknown ASSET name in the error: the response cannot be indexed and is filtered). Thorough additionally enumerates T=2, two requests (kind x delay in "
         "{0,1,2,3,never}; first client answering ok or Err(Connectivity(Timeout))) sent 0/1 ticks apart x 9 time scripts (3 240 cases). "
-        "Observed per op: the sorted multiset of events received on the manager's response channel and whether the manager task is running / stopped / panicked. "
+        "Observed per op: every request the manager HANDS TO THE CLIENT (the scripted client records what it receives: exchange id, instrument NAME, strategy, client order id, side / price / "
+        "quantity / kind / time in force or the cancel's order id; `fwd` lines in intake order), the sorted multiset of events received on the manager's response channel WITH the payload each carries "
+        "(order id, exchange time, filled quantity of an accepted open; order id, exchange time of a confirmed cancel; error kind with its instrument / asset argument, its text, the exchange of "
+        "ExchangeOffline; all values taken from the op line, so that they vary), the same events keyed by the identity they are attributed to (`for:` lines), and whether the manager task is "
+        "running / stopped / panicked. The spec is silent only (a) after Shutdown / after a request for an unconfigured key, (b) on the identity a NON-ECHOING answer that is actually used is attributed "
+        "to (the event count then is a range; every other request due in the same op stays constrained; a non-echoing client that never answers in time is a plain manager timeout, fully "
+        "constrained), and (c) it admits both outcomes `{timeout|response}` for a request whose response arrived after the timeout but before a late poll (`jump`). "
         "A case is distinct by the SHA-1 of its op lines and non-trivial when at least two ops produce different observation blocks")
 ASSUMPTIONS = [
+    "the request handed to the client (oracle audit C07-H1): forwardOf = the C04 model of the call site indexer.order_request (ExecMap.managerClientRequest) on this manager's own map; the spec "
+    "(specForward) demands the manager's own exchange id, the exchange NAME of exactly the request's instrument and the same strategy / client order id / request state; proved equal for every "
+    "configured key (forward_refines_spec, forward_none_iff, forwarded_iff_accepted, forwarded_run) and observed on the real code by a scripted client that records what it is handed",
+    "the payload of the answer (oracle audit C07-H2): `the exchange client's own response` is read as: key and names through the index translation, everything else unchanged (order id, exchange time, "
+    "filled quantity, error text, exchange of ExchangeOffline); an accepted open with nothing left to fill is reported fully filled and carries nothing; the manager's own timeout carries nothing of the "
+    "client's (detailOf / specDetail, detail_refines_spec); the static fields (`body`) are an opaque code in the model, decoded by harness and driver with the same table (side / price / quantity / kind / time in force)",
+    "late poll: a response that arrived after the timeout but before the future was polled wins (tokio Timeout polls the inner future first): the literal text says `timeout failure`; the spec admits "
+    "both outcomes as alternatives `{timeout|response}` for exactly these requests (fate_spec_or_late) and constrains every other request of the op",
     "EchoesKey: the ExecutionClient answers about the order it was asked about (same exchange/instrument/strategy/cid and static fields) and names only configured instruments / assets in its errors; "
     "otherwise the code skips the answer (no event) or attributes it to the echoed key - modelled and exercised, excluded from the exactly-once theorems",
     "requests name the manager's own exchange and a configured instrument (otherwise ExecutionManager::run panics; model and harness both report `panic`)",
@@ -32,12 +48,27 @@ def signature(ops, k, key, impl_line, spec_line):
     op = ops[k].split()[0] if k < len(ops) else "?"
     if key == "nev":
         try:
-            a, b = int(impl_line.split()[1]), int(spec_line.split()[1])
-            return f"clause={'both' if a > b else 'neither'} op={op}"
+            a = int(impl_line.split()[1])
+            alts = spec_line.split()[1].strip("{}").split("|")
+            return f"clause={'both' if a > max(int(x) for x in alts) else 'neither'} op={op}"
         except Exception:
             return f"clause=count op={op}"
+    if key == "fwd":
+        # the request handed to the ExecutionClient is not the request the manager accepted
+        return f"clause=forwarded op={op}"
     if key == "at":
         return f"clause=attribution op={op}"
+    if key == "ev" or key.startswith("for:"):
+        # `... <fields> <outcome>`: same verdict, different payload / static fields => the event does not carry the
+        # client's own response (or the request's own fields); a missing / surplus line or another verdict => fate
+        a, b = impl_line.split(), spec_line.split()
+        if len(a) == len(b) and len(a) >= 3 and not spec_line.startswith("<"):
+            verdicts = {alt.split(":")[0] for alt in b[-1].strip("{}").split("|")}
+            if a[-1].split(":")[0] in verdicts:
+                if a[:-2] != b[:-2]:
+                    return f"clause=attribution op={op}"
+                return f"clause={'fields' if a[-2] != b[-2] and '{' not in b[-2] else 'payload'} op={op}"
+        return f"clause=fate op={op}"
     return f"clause=fate op={op}"
 
 
@@ -59,7 +90,10 @@ LEVEL_TEXT = ("Proof (PARTIAL: bookkeeping proved, runtime tied by correspondenc
               "through the indexer - is on the channel) with client_timeout_event_is_the_managers_timeout_event (the error VALUE is the manager's: for a faithful client the two events are "
               "equal; ExchangeOffline / Socket differ), connectivity_and_nameless_never_filtered, balance_insufficient_is_answered (BalanceInsufficient / AssetInvalid answered iff the asset "
               "is configured, else filtered; for builder-produced systems C04M same_assets_for_every_order discharges it), error_answers_are_delivered, attribution_timeout_iff; refines_spec; resolved_when_polled and eventually_resolved_partial (once every outstanding deadline has passed and the ready futures are "
-              "polled nothing stays in flight). NOT modelled, hence not proved: FuturesUnordered, tokio::select! fairness (that a ready future IS eventually polled - liveness is only "
+              "polled nothing stays in flight); the request handed to the client: forward_refines_spec / forward_none_iff (for every configured key the client is asked with the manager's own exchange id, "
+              "the exchange name of exactly the request's instrument and the unchanged strategy / client order id / request state - via the C04 model of indexer.order_request -, for any other key with nothing), "
+              "forwarded_iff_accepted / forwarded_run (one client call per accepted request, in intake order, on every schedule); the payload: detail_refines_spec, accepted_answer_payload_unchanged, "
+              "timeout_carries_nothing. NOT modelled, hence not proved: FuturesUnordered, tokio::select! fairness (that a ready future IS eventually polled - liveness is only "
               "`_partial`), timer-wheel granularity and wake-ups; these are exercised, not proved, by running the real ExecutionManager::run under virtual time on every check.")
 LEVEL_NOTE = ("Trusted: Lean kernel; axioms propext/Classical.choice/Quot.sound only; the hand-written transition system (tied to manager.rs/request.rs by sampled correspondence: "
               "200 quick / 5 000 random + 1 800 enumerated small-scope cases thorough, prompt and late time steps, batches up to 40 outstanding); tokio's paused clock; harness and driver. "
